@@ -1,11 +1,235 @@
+/-
+Driver for C19: parses a simulated internet (see harness/src/props/c19.rs for the line format), runs
+the model of the recursor on every query of the line (threading the caches) and prints the same
+canonical summary as the harness: answer class, returned records, set of (server group, query)
+pairs sent, unreachable addresses tried.
+-/
 import HickoryVerif.Drv.Proto
+import HickoryVerif.Model.Recursor
 
 namespace HickoryVerif.Drv.C19
-open HickoryVerif HickoryVerif.Drv
+open HickoryVerif HickoryVerif.Drv HickoryVerif.Recursor
 
 abbrev State := Unit
 def init : State := ()
 
-def step (s : State) (_toks : List String) : State × String := (s, "bad-op")
+def parseList {α} (s : String) (sep : String) (f : String → Option α) : Option (List α) :=
+  if s == "-" then some [] else (s.splitOn sep).mapM f
+
+def parseIp (s : String) : Option Ip :=
+  match s.splitOn "." with
+  | ["4", n] => n.toNat?.map fun x => ⟨false, x⟩
+  | ["6", n] => n.toNat?.map fun x => ⟨true, x⟩
+  | _ => none
+
+def parseNet (s : String) : Option IpNet :=
+  match s.splitOn "/" with
+  | [ip, len] => do
+    let ip ← parseIp ip
+    let len ← len.toNat?
+    pure ⟨ip.v6, ip.addr, len⟩
+  | _ => none
+
+def parseRData (names : Array Name) (s : String) : Option RData :=
+  match s.toList with
+  | k :: rest =>
+    match (String.ofList rest).toNat? with
+    | none => none
+    | some v =>
+      if k == 'A' then some (.a v)
+      else if k == 'Q' then some (.aaaa v)
+      else if k == 'N' then names[v]?.map .ns
+      else if k == 'C' then names[v]?.map .cname
+      else if k == 'S' then some (.soa v)
+      else if k == 'T' then some (.txt v)
+      else none
+  | [] => none
+
+def parseRec (names : Array Name) (s : String) : Option Record :=
+  match s.splitOn ":" with
+  | [n, ttl, d] => do
+    let n ← n.toNat?
+    let name ← names[n]?
+    let ttl ← ttl.toNat?
+    let data ← parseRData names d
+    pure { name, ttl, data }
+  | _ => none
+
+def parseResp (names : Array Name) (s : String) : Option Response :=
+  match s.splitOn "/" with
+  | [rc, aa, an, au, ad] => do
+    let rcode ← rc.toNat?
+    let answers ← parseList an "+" (parseRec names)
+    let authorities ← parseList au "+" (parseRec names)
+    let additionals ← parseList ad "+" (parseRec names)
+    pure { rcode, aa := aa == "1", answers, authorities, additionals }
+  | _ => none
+
+structure Internet where
+  names : Array Name
+  groups : Array (List Ip × Response)
+  table : List ((Nat × Nat × Nat) × Response)
+
+def Internet.groupOf (w : Internet) (ip : Ip) : Option Nat :=
+  (List.range w.groups.size).find? fun g => match w.groups[g]? with
+    | some (ips, _) => ips.contains ip
+    | none => false
+
+/-- index of a query name: exact match first, then case-insensitive (as the harness does) -/
+def Internet.nameIdx (w : Internet) (n : Name) : Option Nat :=
+  match (List.range w.names.size).find? fun i => match w.names[i]? with
+      | some x => x.eqCase n && x.fqdn == n.fqdn
+      | none => false with
+  | some i => some i
+  | none => (List.range w.names.size).find? fun i => match w.names[i]? with
+      | some x => x.eq n
+      | none => false
+
+def Internet.net (w : Internet) : Net := fun ip q =>
+  match w.groupOf ip with
+  | none => .unreachable
+  | some g =>
+    match w.groups[g]? with
+    | none => .unreachable
+    | some (_, dflt) =>
+      match w.nameIdx q.name with
+      | none => .msg dflt
+      | some n =>
+        match w.table.find? fun e => e.1 == (g, n, q.qtype) with
+        | some e => .msg e.2
+        | none => .msg dflt
+
+/-! ### printing -/
+
+def ipTok (ip : Ip) : String := (if ip.v6 then "6." else "4.") ++ toString ip.addr
+
+def showRecord (r : Record) : String :=
+  showName r.name ++ "/" ++ match r.data with
+    | .a x => "A" ++ toString x
+    | .aaaa x => "Q" ++ toString x
+    | .ns n => "N" ++ showName n
+    | .cname n => "C" ++ showName n
+    | .soa m => "S" ++ toString m
+    | .txt t => "T" ++ toString t
+
+def dedupSorted : List String → List String
+  | a :: b :: rest => if a == b then dedupSorted (b :: rest) else a :: dedupSorted (b :: rest)
+  | l => l
+
+def sortSet (l : List String) : List String :=
+  dedupSorted (l.mergeSort fun a b => !(b < a))
+
+def listTok (l : List String) : String := if l.isEmpty then "-" else ",".intercalate l
+
+def showResult (res : Except Err Response) : String :=
+  let recs (l : List (String × Record)) : String :=
+    "[" ++ ",".intercalate (sortSet (l.map fun (s, r) => s ++ ":" ++ showRecord r)) ++ "]"
+  match res with
+  | .ok r =>
+    "ok " ++ toString r.rcode ++ " " ++ boolStr r.aa ++ " " ++
+      recs (r.answers.map (("an", ·)) ++ r.authorities.map (("au", ·)) ++ r.additionals.map (("ad", ·)))
+  | .error (.noRecords nx soa ns auths _) =>
+    if !nx && !ns.isEmpty then
+      "fwd 0 0 " ++ recs (ns.flatMap fun (n, glue) => ("ns", n) :: glue.map (("gl", ·)))
+    else
+      (if nx then "nx" else "nodata") ++ " 0 0 " ++
+        recs ((match soa with | some s => [("soa", s)] | none => []) ++ auths.map (("au", ·)))
+  | .error (.rcode c) => "err " ++ toString c ++ " 0 []"
+  | .error .limit => "limit 0 0 []"
+  | .error .cnameLimit => "limit 0 0 []"
+  | .error _ => "err 0 0 []"
+
+def showTrace (w : Internet) (log : List (Ip × Query)) : String :=
+  let sends := log.filterMap fun (ip, q) => (w.groupOf ip).map fun g =>
+    toString g ++ "." ++ showName q.name ++ "." ++ toString q.qtype
+  let dead := log.filterMap fun (ip, _) => match w.groupOf ip with
+    | none => some (ipTok ip)
+    | some _ => none
+  "T=" ++ listTok (sortSet sends) ++ " X=" ++ listTok (sortSet dead)
+
+def runQueries (cfg : Config) (w : Internet) : List Query → St → List String
+  | [], _ => []
+  | q :: qs, st =>
+    let (st', res) := resolve cfg w.net q { st with log := [] }
+    (showResult res ++ " " ++ showTrace w st'.log) :: runQueries cfg w qs st'
+
+def handleRes (t : List String) : Option String :=
+  match t with
+  | [rl, nl, roots, denyS, allowS, denyA, allowA, names, groups, table, queries] => do
+    let rl ← rl.toNat?
+    let nl ← nl.toNat?
+    let roots ← parseList roots "," parseIp
+    let denyS ← parseList denyS "," parseNet
+    let allowS ← parseList allowS "," parseNet
+    let denyA ← parseList denyA "," parseNet
+    let allowA ← parseList allowA "," parseNet
+    let names ← parseList names "," parseName
+    let names := names.toArray
+    let groups ← parseList groups ";" fun g => match g.splitOn "@" with
+      | [ips, d] => do
+        let ips ← parseList ips "," parseIp
+        let d ← parseResp names d
+        pure (ips, d)
+      | _ => none
+    let table ← parseList table ";" fun e => match e.splitOn "=" with
+      | [k, r] => match k.splitOn "," with
+        | [g, n, ty] => do
+          let g ← g.toNat?
+          let n ← n.toNat?
+          let ty ← ty.toNat?
+          let r ← parseResp names r
+          pure ((g, n, ty), r)
+        | _ => none
+      | _ => none
+    let queries ← parseList queries ";" fun q => match q.splitOn "," with
+      | [n, ty] => do
+        let n ← n.toNat?
+        let name ← names[n]?
+        let ty ← ty.toNat?
+        pure (⟨name, ty⟩ : Query)
+      | _ => none
+    let cfg : Config := {
+      recursionLimit := rl, nsRecursionLimit := nl, roots,
+      serverFilter := ⟨allowS, denyS⟩, answerFilter := ⟨allowA, denyA⟩ }
+    let w : Internet := { names, groups := groups.toArray, table }
+    pure (" | ".intercalate (runQueries cfg w queries St.empty))
+  | _ => none
+
+/-- `stub <names> <table> <query>` : alias chasing of the stub resolver -/
+def handleStub (t : List String) : Option String :=
+  match t with
+  | [names, table, query] => do
+    let names ← parseList names "," parseName
+    let names := names.toArray
+    let table ← parseList table ";" fun e => match e.splitOn "=" with
+      | [k, r] => match k.splitOn "," with
+        | [n, ty] => do
+          let n ← n.toNat?
+          let name ← names[n]?
+          let ty ← ty.toNat?
+          let r ← parseResp names r
+          pure ((⟨name, ty⟩ : Query), r)
+        | _ => none
+      | _ => none
+    let q ← match query.splitOn "," with
+      | [n, ty] => do
+        let n ← n.toNat?
+        let name ← names[n]?
+        let ty ← ty.toNat?
+        pure (⟨name, ty⟩ : Query)
+      | _ => none
+    let up : Query → Except Err Response := fun q =>
+      match table.find? fun e => e.1.same q with
+      | some e => .ok e.2
+      | none => .ok { rcode := 3, aa := true, answers := [], authorities := [], additionals := [] }
+    let (ok, n) := stubResolve up q
+    pure (boolStr ok ++ " n=" ++ toString n)
+  | _ => none
+
+def step (s : State) (toks : List String) : State × String :=
+  match toks with
+  | "res" :: rest => (s, (handleRes rest).getD "bad-op")
+  | "stub" :: rest => (s, (handleStub rest).getD "bad-op")
+  | _ => (s, "bad-op")
 
 end HickoryVerif.Drv.C19
